@@ -16,6 +16,17 @@ CLAIMED = {
             'Decides these structural clauses of the property, not memory safety or promptness.',
             'static analysis: interprocedural exception-escape fixpoint + AST call-site rules (LibTooling facts)',
             'library throw table; allocation failure excluded'),
+    'C04': ('other',
+            'Static, all-paths: scope push/pop pairing of every stacked member (MainSolver, Preprocessor), lockstep typestate between the '
+            'interpreter scopes and solver pushes/pops, frontier/ok restoration on pop, unsat-mark propagation, frame-keyed CNF caches, '
+            'conflict-frame set by every engine, per-check reset calls, stale-guard ordering. Decides these necessary structural clauses; '
+            'that learnt facts are logically confined to frames is value-dependent and not decided.',
+            'static analysis: path-sensitive MUST-CALL / typestate walk over the structured mini-AST (LibTooling facts)', ''),
+    'C21': ('other',
+            'Static: container-protocol rules on the scoped registries (every created key can be erased when readers test presence), insertion '
+            'registers all maps and the scope log on every successful path, push/popScope guarded by the same global-declarations predicate, '
+            'scope logs paired with the assertion stack, single writer of the maps. Decides these clauses, not which container each printer reads.',
+            'static analysis: container-protocol and pairing rules over class facts + path-sensitive MUST-CALL walk', ''),
 }
 
 NOT_APPLICABLE = {
